@@ -265,6 +265,53 @@ func collect(f protoreflect.FileDescriptor, out map[string]string) {
 
 var tr = &tracer{}
 
+// allBlocked reports whether every goroutine except the caller is parked in a blocking operation
+// (so that waiting longer cannot change anything), and returns the stack dump.
+func allBlocked() (bool, string) {
+	buf := make([]byte, 4<<20)
+	dump := string(buf[:runtime.Stack(buf, true)])
+	blocked := true
+	first := true
+	for _, line := range strings.Split(dump, "\n") {
+		if !strings.HasPrefix(line, "goroutine ") || !strings.HasSuffix(line, "]:") {
+			continue
+		}
+		if first { // the caller itself
+			first = false
+			continue
+		}
+		st := line[strings.Index(line, "[")+1:]
+		if strings.HasPrefix(st, "running") || strings.HasPrefix(st, "runnable") || strings.HasPrefix(st, "syscall") {
+			blocked = false
+		}
+	}
+	return blocked, dump
+}
+
+// confirmStuck is called when a deadline has expired: a verdict (hang / stall) is only given once all
+// goroutines are seen blocked twice in a row; a loaded machine just gets more time (up to ~2 minutes).
+func confirmStuck(done func() bool) (bool, string) {
+	seen := 0
+	var dump string
+	for i := 0; i < 240; i++ {
+		if done() {
+			return false, ""
+		}
+		var b bool
+		b, dump = allBlocked()
+		if b {
+			seen++
+			if seen >= 2 {
+				return true, dump
+			}
+		} else {
+			seen = 0
+		}
+		time.Sleep(500 * time.Millisecond)
+	}
+	return true, dump // two minutes without finishing although something is runnable: report with the dump
+}
+
 // ---------------------------------------------------------------------------------------------
 // Gate controller: replays a TLC schedule on the real compiler, one goroutine per model step.
 
@@ -323,6 +370,15 @@ func (c *controller) gate(name string, kv ...any) {
 
 // quiesce waits until every live goroutine (main + created tasks) is parked at a gate or has exited.
 func (c *controller) quiesce(mainLive func() bool, d time.Duration) bool {
+	if c.quiesce1(mainLive, d) {
+		return true
+	}
+	// deadline expired: only a state in which every goroutine is blocked is a stall
+	stuck, _ := confirmStuck(func() bool { return c.quiesce1(mainLive, 10*time.Millisecond) })
+	return !stuck && c.quiesce1(mainLive, time.Second)
+}
+
+func (c *controller) quiesce1(mainLive func() bool, d time.Duration) bool {
 	deadline := time.After(d)
 	for {
 		c.mu.Lock()
@@ -502,7 +558,7 @@ func runOne(spec *runSpec) runResult {
 	if len(spec.Sched) > 0 {
 		ctl = newController()
 	}
-	verifhook.Gate = func(name string, kv ...any) {
+	gateFn := func(name string, kv ...any) {
 		if ctl != nil {
 			ctl.gate(name, kv...)
 			return
@@ -528,6 +584,7 @@ func runOne(spec *runSpec) runResult {
 			time.Sleep(time.Duration(20+x%180) * time.Microsecond)
 		}
 	}
+	verifhook.SetGate(gateFn)
 
 	tr.mu.Lock()
 	tr.on = spec.Trace
@@ -572,29 +629,46 @@ func runOne(spec *runSpec) runResult {
 	}
 	if ctl != nil {
 		// tasks become known to the controller through the Create trace point
-		verifhook.Trace = func(ev string, kv ...any) {
+		verifhook.SetTrace(func(ev string, kv ...any) {
 			if ev == "Create" {
 				ctl.mu.Lock()
 				ctl.created[id(kv[1].(string))] = true
 				ctl.mu.Unlock()
 			}
 			tr.emit(ev, kv...)
-		}
+		})
 		res.Nonconf, res.Steps = ctl.drive(spec.Sched, startCompile, func() bool { return atomic.LoadInt32(&mainFinished) == 1 }, cancel)
 		ctl.freeAll()
-		verifhook.Trace = tr.emit
+		verifhook.SetTrace(tr.emit)
 	} else {
 		startCompile()
 	}
 	var o outT
+	got := false
 	select {
 	case o = <-ch:
+		got = true
 	case <-time.After(20 * time.Second):
-		res.Hung = true
-		buf := make([]byte, 1<<20)
-		res.Stacks = string(buf[:runtime.Stack(buf, true)])
-		res.Class = "hung"
-		return res
+	}
+	if !got {
+		stuck, dump := confirmStuck(func() bool {
+			select {
+			case o = <-ch:
+				got = true
+				return true
+			default:
+				return false
+			}
+		})
+		if stuck && !got {
+			res.Hung = true
+			res.Stacks = dump
+			res.Class = "hung"
+			return res
+		}
+		if !got {
+			o = <-ch
+		}
 	}
 	if o.pv != nil {
 		res.Class = "crash"
@@ -671,7 +745,7 @@ func main() {
 		os.Exit(2)
 	}
 	tr.w = bufio.NewWriterSize(tf, 1<<20)
-	verifhook.Trace = tr.emit
+	verifhook.SetTrace(tr.emit)
 	in := bufio.NewScanner(os.Stdin)
 	in.Buffer(make([]byte, 1<<20), 1<<26)
 	out := bufio.NewWriter(os.Stdout)
